@@ -174,7 +174,7 @@ def run(ctx):
         raise vf.Infra("configuration fields of a type the specification has no class for: %s" % bad[:5])
     byid = {p["pid"]: p for p in params}
     ctx.set("parameters_enumerated", len(params))
-    vf.write_ndjson(d + "/C09_params.ndjson", [{k: p[k] for k in ("pid", "addr", "tag", "kind", "type", "dlen", "itemdec")} for p in params])
+    vf.write_ndjson(d + "/C09_params.ndjson", [{k: p[k] for k in ("pid", "addr", "tag", "kind", "type", "dlen", "itemdec", "ptr")} for p in params])
 
     # ---- GEN: key, text, expressibility per parameter x context x value class
     g = vf.tlc(ctx, "EnvYaml", ctx.pick("EnvYaml_gen.cfg", "EnvYaml_genfull.cfg"), workers=1, timeout=900, java_opts=["-Xmx8g"])
@@ -226,7 +226,10 @@ def run(ctx):
         p = byid[c["pid"]]
         base, filed, over = build_docs(p, c, defaults)
         c["id"] = i
-        cases.append({"id": i, "base": base, "file": filed, "over": over, "env": {"".join(c["k"]): c["e"]}})
+        env = {"".join(c["k"]): c["e"]} if c["exact"] else {}
+        if c["sk"]:
+            env["".join(c["sk"])] = "1"
+        cases.append({"id": i, "base": base, "file": filed, "over": over, "env": env})
     cf = vf.write_ndjson(ctx.path("cases.ndjson"), cases)
     of = ctx.path("obs.ndjson")
     vf.gotest_ok(ctx, PKG, "^TestVerif_C09_Run$", cases=cf, out=of, timeout=1500)
@@ -239,7 +242,7 @@ def run(ctx):
     recs = []
     for c in gen:
         o = obs[c["id"]]
-        recs.append({"id": c["id"], "x": c["x"], "l1": o["l1"], "l2": o["l2"], "l3": o["l3"], "eq12": o["eq12"], "eq13": o["eq13"]})
+        recs.append({"id": c["id"], "x": c["x"], "np": c["np"], "l1": o["l1"], "l2": o["l2"], "l3": o["l3"], "eq12": o["eq12"], "eq13": o["eq13"]})
     chunk = 30000
     groups = {}
     for i in range(0, len(recs), chunk):
